@@ -574,6 +574,10 @@ def TCell.setProfile (t : TCell) (pr : Profile) : TCell :=
 /-- `treg.rules = …; treg.stability_threshold = …` -/
 def Sys.setTreg (s : Sys) (g : Treg) : Sys := ⟨s.minTrain, s.tol, s.varThr, g, s.mem, s.clock, s.agents⟩
 
+/-- `ims.thymus.tolerance = tol; ims.thymus.variance_threshold = varThr` assigned after construction: the next
+    `train_agent` uses them (watchers trained earlier keep their baselines) -/
+def Sys.setThymus (s : Sys) (tol varThr : Rat) : Sys := ⟨s.minTrain, tol, varThr, s.treg, s.mem, s.clock, s.agents⟩
+
 /-- `memory.capacity = c` -/
 def Sys.setCap (s : Sys) (c : Int) : Sys :=
   ⟨s.minTrain, s.tol, s.varThr, s.treg, ⟨c, s.mem.sigs⟩, s.clock, s.agents⟩
@@ -669,6 +673,7 @@ inductive Op where
   | setProfile (a : Nat) (pr : Profile)
   | setTreg (g : Treg)
   | setCap (c : Int)
+  | setThymus (tol varThr : Rat)
   /-- a read-only accessor called between operations: `health()`, `memory.stats()`, `export_signatures()`, `repr`,
       `is_anergic`, `get_record`, `recent_update`, `generate_peptide()` from outside, `IntegratedCell.health()` -/
   | peek
@@ -702,6 +707,7 @@ def Sys.step (s : Sys) : Op → Sys × Obs
   | .setProfile a pr => (s.configT a (·.setProfile pr), .done)
   | .setTreg g => (s.setTreg g, .done)
   | .setCap c => (s.setCap c, .done)
+  | .setThymus t v => (s.setThymus t v, .done)
   | .peek => (s, .done)
   | .forget mask => (s.forget mask, .done)
   | .recall a v st => ((s.recall a v st).1, .done)
